@@ -30,6 +30,8 @@ let load_impl path =
    with End_of_file -> ());
   close_in ic;
   Hashtbl.filter_map_inplace (fun _ v -> Some (Stdlib.List.rev v)) Kutil.impl_lines
+(* model_input = "impl": the input is the harness output, not a case file *)
+let () = if Array.length Sys.argv > 2 && Sys.argv.(1) = "C04" then (Drv_c04.main Sys.argv.(2); exit 0)
 
 let () =
   let prop = Sys.argv.(1) and file = Sys.argv.(2) in
